@@ -276,3 +276,12 @@ Example c07_no_leak_nonvacuous :
   Own.ufreed (fst x) = [(3, [2]%positive)] /\ AllocRec.ualloc (snd x) = [(3, [3]%positive)] /\
   AllocRec.admissible2 x (AllocRec.no_leak_schedule (Own.vdata (Own.lat (fst x))) [10]%positive [12]%positive [12]%positive [] [12]%positive []).
 Proof. vm_compute. repeat split; reflexivity. Qed.
+
+(* ------------------------------------------------------------------------------------------------
+   Tie to the code (Gen/Fns.v is regenerated from transaction_tracker.rs on every run by tools/gen_fns.py; see
+   design.d/GEN.md): the id handed out by tracker.allocate_savepoint is SavepointId::next of the counter. *)
+From RV Require Import Gen.FnsLib Gen.Fns Gen.FnsTxnP.
+
+Theorem c07_code_savepoint_id_next_is_model : forall s : Savepoint.Model.st,
+  Savepoint.Model.fresh_id s = SavepointId_next (Savepoint.Model.next_id s).
+Proof. exact savepoint_id_next_is_model. Qed.
